@@ -20,6 +20,8 @@ def obligations(tier):
             serves = sorted(set(serves) | {'C01', 'C02', 'C03', 'C04'})
         o = dict(id='slab.' + i, entry=entry, cls='Pc', serves=serves, function=fn, unwind=unwind, recursion=2, timeout=900, cost=(10 if 'small' in i or 'construct_slab' in i else 1))
         o.update(kw)
+        if o.get('bound'):
+            o['cls'] = 'B'      # one request length / size class / path out of a family that is not enumerated completely: a bounded stand-in
         obs.append(o)
     for p in ('pa', 'pu', 'pd'):
         add('%s.sizeclass' % p, 'h_%s_sizeclass' % p, '%s_size_to_bucket' % p, ['C01'], unwind=6)
